@@ -201,6 +201,114 @@ def _facade_job(snapname):
     return snapname, len(devs), n, viol
 
 
+def _reconnect_job(snapname):
+    """Non-initial states: (1) a facade created while the process-wide table is ACTIVE (previous facade had a
+    pump running, then reset, pump now off) must bring the table back to idle; (2) the same the other way round;
+    (3) a table forced from outside is corrected by the facade's next periodic update."""
+    import os
+
+    snap = lib.load_snapshot(os.path.join(lib.SNAPDIR, snapname))
+    rig = Rig(Chooser(), snapshot=snap)
+    viol = []
+    if not rig.connect(120.0):
+        raise core.HarnessError(f"C17: {snapname} did not connect")
+    rig.loop.run_for(2.0)
+
+    def set_devices(on):
+        fac = rig.facade
+        devs = list(fac.pumps) + list(fac.blowers)
+        blk = rig.peer.block
+        for d in devs[:1]:
+            acc = d._state_sensor.accessor
+            f = Field.of(acc)
+            if acc.type == "Bool":
+                raw = 1 if on else 0
+            else:
+                off = acc.items.index("OFF") if "OFF" in acc.items else 0
+                raw = next(i for i, x in enumerate(acc.items) if x not in ("OFF", "") and i != off) if on else off
+            blk = f.put_raw(blk, raw)
+            rig.spa.struct.replace_status_block_segment(f.pos, blk[f.pos:f.pos + f.width])
+        rig.peer.set_block(blk)
+        return bool(devs)
+
+    for first_on in (True, False):
+        if not set_devices(first_on):
+            break
+        if lib.config_values() != table(first_on):
+            viol.append(("C17|facade|mode", f"{snapname}: first device {'on' if first_on else 'off'} but table is wrong", {"mode": "reconnect", "snapshot": snapname}))
+            break
+        # the spa changes while we are away, and the connection is reset
+        blk = rig.peer.block
+        t = rig.spawn(rig.man.async_reset(), name="HARNESS:reset")
+        rig.loop.run_for(5.0, t.done)
+        fac_dev_field = None
+        # flip the device on the spa side only
+        import copy
+        snap_f = None
+        # (recompute the field from the tables of the snapshot through a throw-away facade-less decode)
+        rig.loop.run_for(0.01)
+        # wait for the reconnection, then flip through the live facade of the NEW connection
+        if not rig.connect(200.0):
+            raise core.HarnessError("C17: no reconnection")
+        rig.loop.run_for(0.5)
+        # new facade: devices still in the old state -> table must (still) match them after its first update
+        rig.loop.run_for(130.0)
+        if lib.config_values() != table(first_on):
+            viol.append(("C17|facade|mode-after-reconnect", f"{snapname}: after a reconnect with the first device "
+                         f"{'on' if first_on else 'off'} the table is not the {'active' if first_on else 'idle'} one",
+                         {"mode": "reconnect", "snapshot": snapname}))
+            break
+        # now the device changes state on the new connection
+        set_devices(not first_on)
+        if lib.config_values() != table(not first_on):
+            viol.append(("C17|facade|mode-after-reconnect", f"{snapname}: after a reconnect the device went "
+                         f"{'on' if not first_on else 'off'} but the table did not follow",
+                         {"mode": "reconnect", "snapshot": snapname}))
+            break
+        set_devices(first_on)
+    if not viol and rig.facade is not None:
+        # reset while ACTIVE, pump switched off on the spa while disconnected
+        if set_devices(True):
+            t = rig.spawn(rig.man.async_reset(), name="HARNESS:reset")
+            rig.loop.run_for(5.0, t.done)
+            # spa side: all pumps/blowers off (use the snapshot's own block if it was all-off, else clear the first device)
+            # the peer block still has the device on; clear it through the reference codec of the accessor we used
+            # (field geometry taken from the table module directly)
+            mod = lib.pack_module(f"{snap.packtype.lower()}-log-{snap.log_version}")
+            from geckolib.driver import GeckoStructure
+            accs = mod.GeckoLogStruct(GeckoStructure(lambda *a: None)).accessors
+            blk = rig.peer.block
+            for key in ("P1", "P2", "P3", "P4", "P5", "BL", "Waterfall"):
+                if key in accs:
+                    a = accs[key]
+                    f = Field.of(a)
+                    raw_off = 0 if a.type == "Bool" else (a.items.index("OFF") if "OFF" in a.items else 0)
+                    blk = f.put_raw(blk, raw_off)
+            rig.peer.set_block(blk)
+            if not rig.connect(200.0):
+                raise core.HarnessError("C17: no reconnection")
+            rig.loop.run_for(130.0)
+            fac = rig.facade
+            any_on = any(bool(d.is_on) for d in list(fac.pumps) + list(fac.blowers))
+            if lib.config_values() != table(any_on):
+                viol.append(("C17|facade|mode-after-reconnect", f"{snapname}: facade built while the table was active with every pump/"
+                             f"blower now off: table is still {'active' if not any_on else 'idle'} after its periodic update",
+                             {"mode": "reconnect", "snapshot": snapname}))
+    if not viol and rig.facade is not None:
+        # table forced from outside: the next periodic facade update must correct it
+        fac = rig.facade
+        any_on = any(bool(d.is_on) for d in list(fac.pumps) + list(fac.blowers))
+        with rig.loop.running():
+            gconfig.set_config_mode(not any_on)
+        rig.loop.run_for(260.0)
+        if lib.config_values() != table(any_on):
+            viol.append(("C17|facade|mode-not-corrected", f"{snapname}: table forced to the wrong mode from outside is not corrected "
+                         f"by the facade's periodic update", {"mode": "reconnect", "snapshot": snapname}))
+    rig.exit()
+    rig.close()
+    return snapname, viol
+
+
 def run(ctx):
     n, viol = _table_check()
     ctx.merge_violations(viol)
@@ -243,6 +351,12 @@ def run(ctx):
         ctx.log(f"facade {snapname}: {ndev} pump/blower devices, {n} on/off combinations x 2 approach orders")
     execs += nf
     ctx.set("facade_combinations", nf)
+    for snapname, viol in core.pmap(ctx, _reconnect_job, FACADE_SNAPSHOTS[:3], chunksize=1):
+        for v in viol:
+            ctx.violation(*v)
+        states.add(("reconnect", snapname))
+        execs += 1
+    ctx.set("reconnect_scenarios", 3)
     ctx.set("states", len(states))
     ctx.set("transitions", execs)
     ctx.set("traces_validated_against_impl", execs)
@@ -258,6 +372,9 @@ def replay(ctx, data):
     elif data["mode"] == "sleep":
         res = _sleep_job(((tuple(tuple(s) for s in data["sleepers"]), tuple(data["switches"])), [tuple(p) for p in data["prefix"]]))
         ctx.merge_violations(res["violations"])
+    elif data["mode"] == "reconnect":
+        for v in _reconnect_job(data["snapshot"])[1]:
+            ctx.violation(*v)
     else:
         ctx.merge_violations(_facade_job(data["snapshot"])[3])
     ctx.set("states", 1)
